@@ -8,16 +8,16 @@ import typing as t
 from . import common as C
 from . import msggen, proj
 
-GEN_INVARIANTS = ["CanonRoundTrip", "CanonLiberal", "ExplicitDefaultsLiberal", "AltRoundTrip", "StyleRoundTrip", "StrictRejectsFreedoms"]
+GEN_INVARIANTS = ["CanonRoundTrip", "CanonLiberal", "ExplicitDefaultsLiberal", "AltRoundTrip", "StyleRoundTrip", "StrictRejectsFreedoms", "FrameAccountsForAll"]
 NMSGS_UPPER = 400  # slices beyond the pool are empty
 
 
-def _cfg(path: str, *, lo: int, hi: int, max_choices: int, alt_nodes: int, styles: bool, maps: str, emit_canon: bool = True) -> None:
+def _cfg(path: str, *, lo: int, hi: int, max_choices: int, alt_nodes: int, styles: bool, maps: str, emit_canon: bool = True, corrupt: int = 0) -> None:
     n = {"2": ("Len2", "Bool2", "Trail2"), "5": ("Len5", "Bool4", "Trail5")}[maps]
     with open(path, "w") as f:
         f.write("CONSTANTS\n")
         f.write(f"  MaxChoices = {max_choices}\n  AltMaxNodes = {alt_nodes}\n  EmitCanon = {'TRUE' if emit_canon else 'FALSE'}\n  EmitAlt = TRUE\n")
-        f.write(f"  Styles = {'TRUE' if styles else 'FALSE'}\n  MiLo = {lo}\n  MiHi = {hi}\n")
+        f.write(f"  Styles = {'TRUE' if styles else 'FALSE'}\n  MiLo = {lo}\n  MiHi = {hi}\n  EmitCorrupt = {'TRUE' if corrupt else 'FALSE'}\n  CorruptMaxLen = {corrupt}\n")
         f.write(f"  LenFormMap <- {n[0]}\n  BoolMap <- {n[1]}\n  TrailMap <- {n[2]}\n")
         f.write("SPECIFICATION Spec\nCHECK_DEADLOCK FALSE\n")
         for inv in GEN_INVARIANTS:
@@ -229,3 +229,21 @@ def run_c04(tier: str, seed: int) -> int:
         return rep.finish()
     finally:
         C.cleanup(wd)
+
+
+def generate_corruptions(rep: C.Report, wd: str, tier: str) -> t.List[t.Any]:
+    """TLC enumerates every single-octet corruption (set / delete / insert) of the canonical encodings of the short pool messages."""
+    slices = 12
+    step = (NMSGS_UPPER + slices - 1) // slices
+    jobs = []
+    maxlen = 30 if tier == "quick" else 64
+    for s_ in range(slices):
+        cfg = os.path.join(wd, f"cor-{s_}.cfg")
+        _cfg(cfg, lo=s_ * step + 1, hi=(s_ + 1) * step, max_choices=0, alt_nodes=0, styles=False, maps="2", emit_canon=False, corrupt=maxlen)
+        jobs.append(dict(module="LdapMsgGen", cfg=cfg, wd=wd, workers=1, xss="512m", tag=f"cor{s_}", timeout=2400))
+    res = C.run_tlc_parallel(jobs)
+    out: t.List[t.Any] = []
+    for j, r in enumerate(res):
+        rep.add_tlc(f"LdapMsgGen slice {j + 1}/{slices}: every single-octet corruption of canonical encodings <= {maxlen} octets (FrameAccountsForAll)", r, exhaustive=True)
+        out += r.json_cases("CORRUPT")
+    return out
